@@ -95,4 +95,14 @@ Proof.
   repeat split; auto.
 Qed.
 
+Lemma kind_eqb_refl k : kind_eqb k k = true.
+Proof. destruct k; reflexivity. Qed.
+
+Lemma allowb_complete allow d : sanctioned_in allow d -> allowb allow d = true.
+Proof.
+  intros [e [Hin [Hfn [Hk Hord]]]]. unfold allowb. apply existsb_exists. exists e. split; [exact Hin|].
+  destruct d as [[fn k] ord]. simpl in *. subst fn k.
+  rewrite String.eqb_refl, kind_eqb_refl. simpl. apply N.ltb_lt. exact Hord.
+Qed.
+
 Definition sanctioned (d : desc) : Prop := sanctioned_in sanctioned_list d.
